@@ -1,7 +1,7 @@
 //! Correspondence streams built from the generators.
 use crate::gen;
 use crate::proggen::{self, Profile};
-use crate::progrun::{run_program, run_program_rep};
+use crate::progrun::{run_program, run_program_rep, run_to_end};
 use crate::rng::Rng;
 
 type Emit<'a> = &'a mut dyn FnMut(String, String);
@@ -52,6 +52,20 @@ pub fn prog_faulty(rng: &mut Rng, count: u64, kind: &str, emit: Emit) {
         let (what, name) = if kind == "loop" { proggen::inject_loop(rng, &mut g) } else { proggen::inject_fault(rng, &mut g) };
         let text = proggen::render_program(&g.stmts);
         let out = run_program(&text, 2, &g.mem, &format!("(inject {} {}) (text {})", what, name, sexp_escape(&text)));
+        match out.request {
+            Some(req) => emit(req, out.result),
+            None => emit(format!("(noparse {})", sexp_escape(&text)), out.result),
+        }
+    }
+}
+
+/// S-PROG status profile driven through `run()` with a timeout: when does it stop and what does it report
+pub fn run(rng: &mut Rng, count: u64, emit: Emit) {
+    for _ in 0..count {
+        let g = proggen::program(rng, Profile::Status);
+        let text = proggen::render_program(&g.stmts);
+        let timeout = match rng.below(6) { 0 => 0, 1 => 1, _ => rng.below(15) as u32 };
+        let out = run_to_end(&text, timeout, &g.mem, &format!("(text {})", sexp_escape(&text)));
         match out.request {
             Some(req) => emit(req, out.result),
             None => emit(format!("(noparse {})", sexp_escape(&text)), out.result),
